@@ -1,13 +1,9 @@
+\* negative twin: only the property it must violate is checked
 SPECIFICATION Spec
 CONSTANTS
   Pw = {"a", "b"}
   MaxKeys = 4
   Atomic = TRUE
   Variant = "upgrade_remove_always"
-INVARIANTS
-  SomeKeyWorks
-  ConfigPresentAtomic
-
-PROPERTIES
-  KeyInUseKept
+INVARIANT ConfigPresentAtomic
 CHECK_DEADLOCK FALSE
